@@ -2,7 +2,7 @@
 framing is checked by the Python oracle through the real parse_string)."""
 import json
 
-from props import c11_names
+from props import c11_names, c11_reserved
 
 ENGINE = "interpolate"
 RULE = ("documents generated as text from a spec: 0-4 @string definitions (before / after / duplicated / absent; values "
@@ -46,6 +46,21 @@ RULE = ("documents generated as text from a spec: 0-4 @string definitions (befor
         "with model operation 111), parse_stack=[Resolve(False)] and Resolve(False).transform(split library) (judged by the same "
         "oracle without the enclosing removal: a resolved field holds the @string's source value, every other field its own, "
         "resolved keys recorded, strings as split; compared with model operation 110). "
+        "Stream `reserved-names` (after all the others): RESERVED AND MAGIC NAMES AS ORDINARY DATA (c11_reserved.py). The names the "
+        "dict-style interface of an entry reserves (`ENTRYTYPE`, `ID`: whatever Entry.items() of the tree under test puts in front "
+        "of the fields), their other-case spellings and the magic words of selfref.magic_for_tree() read from the tree under "
+        "test (attribute names of the model classes, metadata keys of every shipped middleware, block words, Python words, numbers, "
+        "bibliographic names) stand as FIELD NAMES, ENTRY KEYS, ENTRY TYPES, @STRING NAMES and bare VALUES. Bounded grid, one "
+        "document per word w: @string w defined (alone / next to another word / twice, sometimes an @string named like the "
+        "entry type, contents also a bare or enclosed other name), four entries each with a field NAMED w holding a bare "
+        "reference to a defined @string / an enclosed look-alike or text / a concatenation / an undefined or other-case name "
+        "(plus fields named by reserved names and other words, keys `eN` or words), and one entry whose KEY is w (a defined "
+        "@string name) and whose TYPE is w or another defined @string name, with every reserved name as a field holding an "
+        "enclosed value / a concatenation / an undefined name / a bare reference, next to an ordinary field referring to w; "
+        "default parse plus one copy-mode stack (thorough: resolve alone too). Random part: 1-4 definitions, 1-3 entries, names, "
+        "keys, types and values drawn from the same pools (reserved names weighted), all three operations, the two-call stream "
+        "and two of the stacks above (those that keep field names as written). Every field is judged by its own source value "
+        "only (the same oracle as everywhere else; model operations 110 / 111 / 112 as for the other streams). "
         "distinct = distinct (text, operation[, stack]); "
         "non-trivial = some field value is a bare identifier or an enclosed look-alike of a defined key")
 TRUSTED = ["the splitter is not modelled in this engine: the model starts from the split library, the Python oracle checks "
@@ -335,6 +350,257 @@ def placement_cases(rng, tier):
             yield {"stream": "copy-placement", "input": {"doc": doc, "op": 114, "stack": stack}}
 
 
+# ---------------------------------------------------------------- reserved and magic names as ordinary data
+RSV_STACKS = [st for st, _ in STACKS if "normalize" not in st]          # stacks that keep the field names as written
+RSV_KINDS = ["bare-defined", "bare-defined", "braced", "quoted", "concat", "undefined", "other-case", "text", "number"]
+RSV_ENCLOSED = ["braced", "quoted", "text"]
+
+
+def rsv_value(rng, kind, defined, words):
+    """a source value of the given kind about one of the defined names (about any word when nothing is defined)"""
+    k = rng.choice(defined) if defined else rng.choice(words)
+    k2 = rng.choice(defined + words[:12])
+    if kind == "bare-defined":
+        return k
+    if kind == "braced":
+        return "{%s}" % k
+    if kind == "quoted":
+        return '"%s"' % k
+    if kind == "concat":
+        return rng.choice(["%s # %s" % (k, k2), '%s # "lit"' % k, "{lit} # %s" % k, "%s # %s" % (k, k), '"%s" # "%s"' % (k, k2)])
+    if kind == "undefined":
+        free = [x for x in words if x not in defined]
+        return rng.choice([rng.choice(free) if free else k + "x", k + "x", "x" + k, "undefinedkey"])
+    if kind == "other-case":
+        vs = [v for v in c11_reserved.case_variants(k) if v not in defined]
+        return rng.choice(vs) if vs else k + "X"
+    if kind == "text":
+        return rng.choice(["{X-123}", '"preprint"', "{{%s}}" % k, "{Some {T}itle}", "{%s %s}" % (k, k2), "{}", '""'])
+    return rng.choice(["1990", "12", "0"])
+
+
+def rsv_name(rng, R, taken):
+    """a field name: a reserved name, one of its other-case spellings, a magic word, now and then an ordinary name"""
+    other = [w for w in R["words"] if R["cat"][w] == "v1-shim-name-other-case"]
+    for _ in range(20):
+        r = rng.random()
+        if r < 0.35:
+            n = rng.choice(R["shim"])
+        elif r < 0.5 and other:
+            n = rng.choice(other)
+        elif r < 0.9:
+            n = rng.choice(R["words"])
+        else:
+            n = rng.choice(FNAMES)
+        if n not in taken:
+            return n
+    return "f%d" % len(taken)
+
+
+def rsv_type(rng, name):
+    """the entry type `name` as written in the source (the splitter lower-cases it)"""
+    return rng.choice([name, name, name.upper(), name.title()])
+
+
+def rsv_finish(rng, strings, ents, R, part, word=None, early=False):
+    how = rng.choice(["before", "after", "around", "mixed"])
+    if how == "before":
+        items = strings + ents
+    elif how == "after":
+        items = ents + strings
+    elif how == "around":
+        cut = rng.randint(0, len(strings))
+        items = strings[:cut] + ents + strings[cut:]
+    else:
+        items = strings + ents
+        rng.shuffle(items)
+    if rng.random() < 0.1:
+        items.insert(rng.randint(0, len(items)), {"t": "raw", "text": rng.choice(RAW_TEXTS)})
+    if early:
+        for it in strings:
+            if rng.random() < 0.5:
+                it["early"] = True
+    used = set()
+    for it in items:
+        if it["t"] == "string":
+            used.add(it["key"])
+        elif it["t"] == "entry":
+            used.update([it["key"], it["type"].lower()] + [n for n, _ in it["fields"]])
+    rs = {"part": part, "shim": list(R["shim"]), "cat": {w: R["cat"][w] for w in sorted(used) if w in R["cat"]}}
+    if word is not None:
+        rs["word"] = word
+    doc = {"items": items, "style": rng.randint(0, 3), "rsv": rs}
+    if rng.random() < 0.4:
+        add_layout(doc, rng)
+    return doc
+
+
+def reserved_grid_doc(rng, R, w):
+    """the word w as @string name, as field name (four entries: one per kind of value) and as entry key / type (one entry
+    with every reserved name as a field)"""
+    words, shim = R["words"], R["shim"]
+    o = rng.choice([x for x in words if x.casefold() != w.casefold()])
+    c = rng.sample(CONTENTS + [o, "{%s}" % w, '"%s"' % o], 3)
+    defs = [(w, c[0])]
+    how = rng.choice(["w", "w", "both", "both", "twice"])
+    if how == "both":
+        defs.append((o, c[1]))
+    elif how == "twice":
+        defs.append((w, c[1]))
+    type_b = w.lower() if c11_reserved.usable_type(w) else rng.choice(["article", "book", "misc"])
+    if type_b != w and rng.random() < 0.6:
+        defs.append((type_b, c[2]))                       # the TYPE of the last entry is a defined @string name, too
+    if how != "twice":
+        rng.shuffle(defs)
+    defined = [k for k, _ in defs]
+    strings = [{"t": "string", "key": k, "src": v} for k, v in defs]
+    principal = ["bare-defined", rng.choice(RSV_ENCLOSED), "concat", rng.choice(["undefined", "other-case"])]
+    rng.shuffle(principal)
+    free_keys = [x for x in words if x != w]
+    rng.shuffle(free_keys)
+    ents = []
+    for i, kind in enumerate(principal):
+        fields = [[w, rsv_value(rng, kind, defined, words)]]
+        taken = {w}
+        for _ in range(rng.choice([0, 1, 1, 2])):
+            n = rsv_name(rng, R, taken)
+            taken.add(n)
+            fields.append([n, rsv_value(rng, rng.choice(RSV_KINDS), defined, words)])
+        rng.shuffle(fields)
+        key = "e%d" % i if rng.random() < 0.5 else free_keys.pop()
+        ents.append({"t": "entry", "type": rng.choice(["article", "Book", "misc"]), "key": key, "fields": fields})
+    fields = []
+    for r in rng.sample(shim, len(shim)):
+        kind = rng.choice(["braced", "quoted", "text", "text", "concat", "undefined", "bare-defined", "other-case"])
+        fields.append([r, rsv_value(rng, kind, defined, words)])
+    plain = [n for n in FNAMES if n not in shim]
+    fields.insert(rng.randint(0, len(fields)), [rng.choice(plain), w])
+    ents.append({"t": "entry", "type": rsv_type(rng, type_b), "key": w, "fields": fields})
+    rng.shuffle(ents)
+    return rsv_finish(rng, strings, ents, R, "grid", word=w)
+
+
+def reserved_doc(rng, R):
+    """random part: names, keys, types and values from the reserved names and the magic words"""
+    words, shim = R["words"], R["shim"]
+    nstr = rng.choice([1, 1, 2, 2, 3, 4])
+    defined = []
+    for _ in range(nstr):
+        r = rng.random()
+        defined.append(rng.choice(shim) if r < 0.15 else rng.choice(defined) if defined and r < 0.25 else rng.choice(words))
+    nent = rng.choice([1, 1, 2, 3])
+    types = []
+    for _ in range(nent):
+        r = rng.random()
+        usable = [d for d in defined if c11_reserved.usable_type(d) and d == d.lower()]
+        if r < 0.25 and usable:
+            types.append(rng.choice(usable))                          # the type is a defined @string name
+        elif r < 0.45:
+            t = rng.choice(["article", "book", "misc"])
+            defined.append(t)                                         # ... an ordinary type that an @string is named after
+            types.append(t)
+        elif r < 0.6:
+            types.append(rng.choice([x for x in words if c11_reserved.usable_type(x)]).lower())
+        else:
+            types.append(rng.choice(["article", "book", "misc"]))
+    contents = CONTENTS + STRING_SRCS[:6] + ["{%s}" % rng.choice(words), rng.choice(words)]
+    strings = [{"t": "string", "key": k, "src": rng.choice(contents)} for k in defined]
+    rng.shuffle(strings)
+    keys = set()
+    ents = []
+    for i in range(nent):
+        r = rng.random()
+        cands = [d for d in defined if d not in keys]
+        if r < 0.4 and cands:
+            key = rng.choice(cands)                                   # the key is a defined @string name
+        elif r < 0.6:
+            key = rng.choice([x for x in words if x not in keys])
+        else:
+            key = "e%d" % i
+        keys.add(key)
+        taken = set()
+        fields = []
+        for _ in range(rng.choice([1, 2, 2, 3, 3, 4])):
+            n = rsv_name(rng, R, taken)
+            taken.add(n)
+            fields.append([n, rsv_value(rng, rng.choice(RSV_KINDS), defined, words)])
+        ents.append({"t": "entry", "type": rsv_type(rng, types[i]), "key": key, "fields": fields})
+    return rsv_finish(rng, strings, ents, R, "random", early=True)
+
+
+def reserved_cases(rng, tier):
+    R = c11_reserved.words_for_tree()
+    for w in R["words"]:
+        doc = reserved_grid_doc(rng, R, w)
+        yield {"stream": "reserved-names", "input": {"doc": doc, "op": 111}}
+        if tier != "quick":
+            yield {"stream": "reserved-names", "input": {"doc": doc, "op": 110}}
+        yield {"stream": "reserved-names", "input": {"doc": doc, "op": 114, "stack": rng.choice(RSV_STACKS)}}
+    for _ in range(120 if tier == "quick" else 3000):
+        doc = reserved_doc(rng, R)
+        for op in (110, 111, 112):
+            yield {"stream": "reserved-names", "input": {"doc": doc, "op": op}}
+        if any(it["t"] == "string" and it.get("early") for it in doc["items"]):
+            yield {"stream": "reserved-names", "input": {"doc": doc, "op": 113}}
+        for stack in rng.sample(RSV_STACKS, 2):
+            yield {"stream": "reserved-names", "input": {"doc": doc, "op": 114, "stack": stack}}
+
+
+def value_kind(src, defined):
+    """how a source value relates to the defined @string names (for the distribution only)"""
+    from props.c10 import outer_pair
+    s = src.strip()
+    if is_bare_ident(s):
+        if s in defined:
+            return "bare-defined"
+        if s.casefold() in set(d.casefold() for d in defined):
+            return "bare-other-case"
+        return "number" if s.isdigit() else "bare-undefined"
+    op = outer_pair(s)
+    if op:
+        return "enclosed-look-alike" if op[1] in defined else "enclosed-text"
+    return "concatenation" if "#" in s else "other"
+
+
+def reserved_tags(doc):
+    """the distribution of the reserved-names stream, from the document spec"""
+    rs = doc.get("rsv")
+    if not rs:
+        return []
+    cat = rs["cat"]
+    defined = set(it["key"] for it in doc["items"] if it["t"] == "string")
+    tags = {"reserved:part:" + rs["part"]}
+    for it in doc["items"]:
+        if it["t"] == "string":
+            tags.add("reserved:string-name:" + cat.get(it["key"], "plain"))
+        if it["t"] != "entry":
+            continue
+        coincide = []
+        if it["key"] in defined:
+            coincide.append("key")
+            tags.add("reserved:entry-key-is-a-defined-string-name")
+        elif it["key"] in cat:
+            tags.add("reserved:entry-key:" + cat[it["key"]])
+        if it["type"].lower() in defined:
+            coincide.append("type")
+            tags.add("reserved:entry-type-is-a-defined-string-name")
+        elif it["type"].lower() in cat:
+            tags.add("reserved:entry-type:" + cat[it["type"].lower()])
+        for n, src in it["fields"]:
+            c, kind = cat.get(n, "plain"), value_kind(src, defined)
+            tags.add("reserved:field-name:" + c)
+            tags.add("reserved:value:" + kind)
+            if c.startswith("v1-shim-name"):
+                tags.add("reserved:%s-field/%s" % (c, kind))
+                if coincide:
+                    tags.add("reserved:%s-field/%s/entry-%s-is-a-defined-string-name" % (c, kind, "-and-".join(coincide)))
+            if n in defined:
+                tags.add("reserved:field-name-is-a-defined-string-name/" + kind)
+            if n == src.strip():
+                tags.add("reserved:field-name-equals-its-bare-value")
+    return sorted(tags)
+
+
 def two_calls(doc):
     """the documents of the two-call stream: (early @string definitions, everything else)"""
     early = [it for it in doc["items"] if it["t"] == "string" and it.get("early")]
@@ -396,6 +662,8 @@ def generate(rng, tier):
                 cases.append({"stream": "alphabet-sweep", "input": {"doc": doc, "op": 110}})
     # the default stack and its parts in copy mode x placement of the definition (appended: the streams above keep their inputs)
     cases.extend(placement_cases(rng, tier))
+    # reserved and magic names as field names, entry keys, entry types, @string names and values (appended, as above)
+    cases.extend(reserved_cases(rng, tier))
     return cases
 
 
@@ -571,6 +839,8 @@ def impl_two_calls(doc):
                        else "two-call-resolved-none")
     if doc.get("alpha"):
         rec["tags"].append("two-call-alphabet")
+    if doc.get("rsv"):
+        rec["tags"].append("two-call-reserved-names")
     rec["summary"] = repr([[(f.key, f.value) for f in e.fields] for e in lib.entries])[:200]
     return rec
 
@@ -696,11 +966,15 @@ def impl(case):
             if got != want:
                 ok, detail = False, "the @string blocks after parsing are %r, as split they were %r" % (got, want)
         rec["oracle"] = {"ok": ok, "detail": detail + ("" if ok else " in document %r parsed with %s" % (text, STACK_TEXT[stack]))}
-        cls = doc["cls"]
         some = any("ResolveStringReferences" in e.parser_metadata for e in lib.entries)
-        tags += ["stack:" + stack, "place:" + cls["place"], "place:%s/%s" % (cls["place"], "separated" if cls["sep"] else "adjacent"),
-                 "place:%s/%s" % (cls["place"], "resolved-some" if some else "resolved-none"), "uses-of-the-name:%d" % cls["uses"]]
-        tags += alpha_tags(doc, "copy-placement:")
+        if "cls" in doc:
+            cls = doc["cls"]
+            tags += ["stack:" + stack, "place:" + cls["place"], "place:%s/%s" % (cls["place"], "separated" if cls["sep"] else "adjacent"),
+                     "place:%s/%s" % (cls["place"], "resolved-some" if some else "resolved-none"), "uses-of-the-name:%d" % cls["uses"]]
+            tags += alpha_tags(doc, "copy-placement:")
+        else:
+            tags += ["reserved:stack:" + stack, "reserved:stack-resolved-some" if some else "reserved:stack-resolved-none"]
+            tags += reserved_tags(doc)
     elif op == 111:
         ok, detail = oracle_default(doc, lib)
         if ok:
@@ -712,6 +986,7 @@ def impl(case):
         rec["oracle"] = {"ok": ok, "detail": detail + ("" if ok else " in document %r" % text)}
         tags.append("resolved-some" if any("ResolveStringReferences" in e.parser_metadata for e in lib.entries) else "resolved-none")
         tags += alpha_tags(doc)
+        tags += reserved_tags(doc)
     elif op == 110:
         # resolution alone leaves every non-entry block and every string as split
         ok = [(s.key, s.value) for s in lib.strings] == [(s.key, s.value) for s in split0.strings] and \
